@@ -289,7 +289,7 @@ def run(c):
         c.violation(PID + ":harness-build", "harness does not build against the repository: " + err[-800:],
                     dict(correspondence="harness build", log=err[-3000:]), no_input=True)
         return
-    n = 2500 if c.thorough else 500
+    n = 12000 if c.thorough else 500
     args = [harness, "storec06", "--seed", str(c.seed), "--tier", c.tier, "--out", c.work, "--tmp", c.work]
     gen = dict(command="storec06", seed=c.seed, tier=c.tier)
     if c.replay:
